@@ -1235,6 +1235,12 @@ def fixed_cases():
         ("SG1-any", "$S = { a: any };\nfn main() { println(1); }\n", True, "singleton with a field of type any"),
         ("SG1-list-option-ok", "$S = { a: [fn() -> int], o: ?fn() -> int, k: int, d: { ? }, r: range };\nfn use(s: $S) -> int { s.a.len() + s.k }\nfn main() { println(use()); }\n", False,
          "function types inside a list / an option have a default value (empty list, none)"),
+        # a list literal takes its element type from its FIRST element; every later element is checked against it
+        ("list-first-elem-none-last", 'fn total(l: [?int]) -> int { let s = 0; for x in l { s += x.unwrap_or(0); } s }\nfn main() { let readings = [?21, ?19, none]; println(total(readings), total([?1, none])); let names = [?"a", none, ?"b", none]; println(names.len()); }\n', False,
+         "`none` after typed options: the list keeps the type of its first element"),
+        ("list-first-elem-none-first", "fn main() { let l = [none, ?1]; println(l); }\n", True, "`none` first: the element type is ?any (implicit any)"),
+        ("list-first-elem-mixed", 'fn main() { let l = [?1, none, ?"x"]; println(l); }\n', True, "a later element of another option type"),
+        ("list-first-elem-mixed-scalar", 'fn main() { let l = [1, 2, "x", 3]; println(l); }\n', True, "a later element of another scalar type, followed by a fitting one"),
         # the identifier of a catch block lives in the catch block only
         ("catch-ident-after", 'fn main() { try { throw("x"); } catch e { println(e.message); } println(e.message); }\n', True, "catch identifier used after the try expression"),
         ("catch-ident-after-fn", 'fn f() -> str { let r = try { "a" } catch err { err.message }; err.message }\nfn main() { println(f()); }\n', True, "catch identifier used after the try expression (function tail)"),
